@@ -131,6 +131,9 @@ var propKinds = []gen.Kind{gen.KInt, gen.KStr, gen.KNull}
 // that the product stays small; thorough: both properties range over everything.
 func ZZC01Object() {
 	keys := [][]byte{[]byte("a"), []byte("b")}
+	if v.Param("emptykey", 1) != 0 && v.Choose(0, 1) == 1 {
+		keys[0] = []byte{} // the empty string is a legal key
+	}
 	n := v.Choose(0, v.Param("maxkeys", 2))
 	full2 := v.Param("full2", 0) != 0
 	e := &gen.Ex{Kind: gen.KObj}
